@@ -11,7 +11,7 @@ nRoot == <<>>  nA == <<la>>  nAB == <<la, lbc>>  nT == <<lt, lbc>>  n63 == <<l63
 Names == {nRoot, nA, nAB, n63, n127, n255}
 Q(n, t, c) == [name |-> n, type |-> t, class |-> c]
 RRr(n, t, c, ttl, d) == [name |-> n, type |-> t, class |-> c, ttl |-> ttl, data |-> d]
-M(q, an, ns, ar) == [id |-> 4660, qr |-> 1, opcode |-> 0, aa |-> 0, tc |-> 0, rd |-> 1, ra |-> 1, rcode |-> 0,
+M(q, an, ns, ar) == [id |-> 4660, qr |-> 1, opcode |-> 0, aa |-> 0, tc |-> 0, rd |-> 1, ra |-> 1, z |-> 0, rcode |-> 0,
                      question |-> q, answer |-> an, authority |-> ns, additional |-> ar]
 IP4(x) == [ip |-> <<x, 0, 2, x>>]
 IP6(x) == [ip |-> <<32, 1, 13, 184>> \o Rep(0, 11) \o <<x>>]
@@ -23,6 +23,8 @@ O(c, d) == [code |-> c, data |-> d]
 \* -- header flags and ids
 F_flags == { [M(<<Q(nAB, 1, 1)>>, <<>>, <<>>, <<>>) EXCEPT !.id = id, !.qr = qr, !.opcode = op, !.aa = aa, !.tc = tc, !.rd = rd, !.ra = ra, !.rcode = rc] :
                id \in {0, 65535}, qr \in {0, 1}, op \in {0, 15}, aa \in {0, 1}, tc \in {0, 1}, rd \in {0, 1}, ra \in {0, 1}, rc \in {0, 3, 15} }
+           \* ... and with the Z / AD / CD bits as other encoders set them
+           \cup { [M(<<Q(nAB, 1, 1)>>, <<ARec(nAB, 1)>>, <<>>, <<>>) EXCEPT !.z = z, !.rcode = rc, !.ra = ra] : z \in 1..7, rc \in {0, 3, 5}, ra \in {0, 1} }
 \* -- names: in the question, as owner, inside RDATA
 F_names == { M(<<Q(n, t, c)>>, <<>>, <<>>, <<>>) : n \in Names, t \in {1, 65, 255}, c \in {1, 255} }
            \cup { M(<<Q(nAB, 1, 1)>>, <<RRr(n, ty, 1, T4(300), [name |-> n2])>>, <<>>, <<>>) : n \in Names, n2 \in {nRoot, nAB, n127, n255}, ty \in NameTypes }
@@ -34,11 +36,17 @@ OptLists == { <<>>, <<O(12, Rep(0, 3))>>, <<O(10, Rep(7, 8)), O(12, <<>>)>>, <<O
 F_opt == { [M(<<Q(nAB, 1, 1)>>, <<>>, <<>>, ar) EXCEPT !.rcode = rc] : rc \in {0, 1, 15},
              ar \in { <<Opt(os, ttl)>> : os \in OptLists, ttl \in {<<0, 0, 0, 0>>, <<1, 0, 0, 0>>, <<255, 0, 0, 0>>, <<0, 0, 128, 0>>} } \cup { <<ARec(nA, 1), Opt(<<>>, <<0, 0, 0, 0>>)>> } }
 \* -- HTTPS / SVCB parameters
-Https(p, t, al, nd, po, v4, ech, v6) == [prio |-> p, target |-> t, alpn |-> al, nodef |-> nd, port |-> po, v4 |-> v4, ech |-> ech, v6 |-> v6]
+Https(p, t, al, nd, po, v4, ech, v6) == [prio |-> p, target |-> t, alpn |-> al, nodef |-> nd, port |-> po, v4 |-> v4, ech |-> ech, v6 |-> v6, pre |-> <<>>, post |-> <<>>]
+P(k, v) == [key |-> k, val |-> v]
 h2 == <<104, 50>>  h3 == <<104, 51>>
 F_https == { M(<<Q(nAB, 65, 1)>>, <<RRr(nAB, tHTTPS, 1, T4(60), Https(p, t, al, nd, po, v4, ech, v6))>>, <<>>, <<>>) :
                p \in {0, 1, 65535}, t \in {nRoot, nT}, al \in {<<>>, <<h2>>, <<h3, h2>>}, nd \in BOOLEAN, po \in {0, 8443, 65535},
                v4 \in {<<>>, <<<<192, 0, 2, 1>>>>, <<<<192, 0, 2, 1>>, <<192, 0, 2, 2>>>>}, ech \in {<<>>, <<1, 2, 3>>}, v6 \in {<<>>, <<IP6(9).ip>>, <<IP6(9).ip, IP6(7).ip>>} }
+\* -- HTTPS records from another encoder: "mandatory" first (RFC 9460 section 8), keys the package has no field for last
+F_httpsx == { M(<<Q(nAB, 65, 1)>>, <<RRr(nAB, tHTTPS, 1, T4(60), [Https(1, t, al, FALSE, po, <<>>, ech, <<>>) EXCEPT !.pre = pre, !.post = post])>>, <<>>, <<>>) :
+                t \in {nRoot, nT}, al \in {<<>>, <<h2>>}, po \in {0, 8443}, ech \in {<<>>, <<1, 2, 3>>},
+                pre \in {<<>>, <<P(0, <<0, 1>>)>>, <<P(0, <<0, 1, 0, 3>>)>>, <<P(0, <<0, 5>>)>>},
+                post \in {<<>>, <<P(7, <<47, 100>>)>>, <<P(8, <<>>), P(65280, <<1>>)>>} }
 \* -- record types the package only decodes
 F_decodeonly ==
   { M(<<Q(nAB, 15, 1)>>, <<RRr(nAB, tMX, 1, T4(60), [pref |-> pr, name |-> n])>>, <<>>, <<>>) : pr \in {0, 10, 65535}, n \in {nRoot, nAB, nT} }
